@@ -72,7 +72,10 @@ pub fn create_boolean_constructor(interp: &mut Interpreter) -> Gc<JsObject> {
     interp
         .boolean_prototype
         .borrow_mut()
-        .set_property(ctor_key, JsValue::Object(constructor.clone()));
+        .define_property(
+            ctor_key,
+            crate::value::Property::with_attributes(JsValue::Object(constructor.clone()), true, false, true),
+        );
 
     constructor
 }
